@@ -1265,13 +1265,13 @@ fn main() {
         let nocap = std::env::var("C06_NOCAP").is_ok();
         let wall = |q: u64, t: u64| if nocap { 100_000 } else { tier.pick(q, t) };
         if want("ac-wrapper") {
-            r.world(&Ac { variant: Variant::Empty }, &Bounds::new(tier.pick(5, 6), wall(20, 300)));
+            r.world(&Ac { variant: Variant::Empty }, &Bounds::new(tier.pick(5, 6), wall(20, 220)));
         }
         if want("ac-wrapper-seeded") {
-            r.world(&Ac { variant: Variant::Seeded }, &Bounds::new(tier.pick(3, 5), wall(12, 200)));
+            r.world(&Ac { variant: Variant::Seeded }, &Bounds::new(tier.pick(3, 5), wall(12, 290)));
         }
         if want("ac-wrapper-maxroles") {
-            r.world(&Ac { variant: Variant::MaxRoles }, &Bounds::new(tier.pick(4, 5), wall(6, 40)));
+            r.world(&Ac { variant: Variant::MaxRoles }, &Bounds::new(tier.pick(4, 5), wall(6, 30)));
         }
         if want("nft-access-control-macros") {
             r.world(&Macros, &Bounds::new(tier.pick(4, 7), wall(4, 30)));
